@@ -25,9 +25,9 @@ type profile struct {
 	wKeyvalue  int
 	wRegex     int
 	wVar       int
-	strictPct  int // percentage of strict paths
-	predPct    int // percentage of top-level predicate check expressions
-	numRepr    int // 0: float64 docs, 1: json.Number docs, 2: mixed per case
+	strictPct  int  // percentage of strict paths
+	predPct    int  // percentage of top-level predicate check expressions
+	numRepr    int  // 0: float64 docs, 1: json.Number docs, 2: mixed per case
 	weird      bool // NaN/Inf floats, out-of-range json.Number, int64 in documents
 }
 
@@ -43,11 +43,11 @@ var profiles = map[string]profile{
 }
 
 type gen struct {
-	r    *rand.Rand
-	p    profile
-	keys []string // keys used by the current path (documents are generated for them)
-	vars []string
-	strs []string // string literals used by the path
+	r                     *rand.Rand
+	p                     profile
+	keys                  []string // keys used by the current path (documents are generated for them)
+	vars                  []string
+	strs                  []string // string literals used by the path
 	reuseTop, reuseFilter []string // expressions generated so far for this path, by scope
 	made                  []any    // containers generated so far for this document
 }
@@ -526,7 +526,7 @@ var floatPool = []float64{0, 1, -1, 2, 3, 10, 0.5, 1.5, 2.5, -2.5, -0.5, 3.7, 1e
 	9007199254740992, 9007199254740993, 9223372036854775807, 9223372036854775808, -9223372036854775808, 1e19, 1e21, 1e308, 5e-324, 1e-7, 0.1, 100, 7, 4611686018427387904}
 var jnumPool = []string{"0", "1", "-1", "2", "3", "10", "0.5", "1.5", "2.5", "-2.5", "1e2", "1E2", "1E+2", "-1E3", "5E-1", "1.0E2", "1e+2", "0.0", "-0.0", "2.9999999999", "0.9999999999", "1.50", "100e-2", "2147483647", "2147483648", "-2147483649",
 	"9007199254740993", "9223372036854775807", "9223372036854775808", "-9223372036854775808", "-9223372036854775809", "1e19", "1e308", "5e-324", "1e-7", "0.1", "100", "1.0", "-0", "4611686018427387904", "12345678901234567890"}
-var jnumWeird = []string{"1e400", "-1e400", "1e-400", "1e999999", "123456789012345678901234567890", bigDigits, "-" + bigDigits, bigDigits + ".5", longMantissaE, "-" + longMantissaE}
+var jnumWeird = []string{"1e400", "-1e400", "1e-400", "1e999999", "123456789012345678901234567890", bigDigits, "-" + bigDigits, bigDigits + ".5", longMantissaE, "-" + longMantissaE, digits309, "-" + digits309, maxFloatDigits}
 
 func (g *gen) number(repr int) any {
 	if g.p.weird && g.pct(3) {
@@ -643,6 +643,12 @@ func collectStrings(v any, out map[string]bool) {
 	switch v := v.(type) {
 	case string:
 		out[v] = true
+	case json.Number:
+		out[string(v)] = true // what .string() gives for it
+	case float64:
+		out[strconv.FormatFloat(v, 'g', -1, 64)] = true
+	case int64:
+		out[strconv.FormatInt(v, 10)] = true
 	case []any:
 		for _, x := range v {
 			collectStrings(x, out)
